@@ -641,3 +641,38 @@ func registerProtoBox(m map[string]intrinsicFn) {
 	m["github.com/golang/protobuf/proto.Marshal"] = marshal
 	m["github.com/golang/protobuf/proto.Unmarshal"] = unmarshal
 }
+
+// registerSort: sort.Slice / sort.SliceStable (reflection-based swapper in the real library) as an insertion sort that
+// calls the real less closure and swaps slice elements in place.  Any order sort.Slice may produce for equal elements
+// is allowed by its contract; the model produces the stable one.
+func registerSort(m map[string]intrinsicFn) {
+	sortSlice := func(in *Interp, fn *ssa.Function, args []Value) Value {
+		iv := args[0].(IfaceV)
+		sv, ok := iv.V.(SliceV)
+		if !ok {
+			in.unsupportedf("sort.Slice on non-slice %T", iv.V)
+		}
+		less := args[1].(*FuncV)
+		lt := func(i, j int) bool {
+			r := in.invokeFuncV(less, []Value{in.tb.Const(64, uint64(i)), in.tb.Const(64, uint64(j))})
+			if t, ok := r.(*Term); ok {
+				return in.branch(t)
+			}
+			if tv, ok := r.(TupleV); ok && len(tv) == 1 {
+				return in.branch(tv[0].(*Term))
+			}
+			in.unsupportedf("sort.Slice: less returned %T", r)
+			return false
+		}
+		for i := 1; i < sv.Len; i++ {
+			for j := i; j > 0 && lt(j, j-1); j-- {
+				a, b := in.sliceGet(sv, j), in.sliceGet(sv, j-1)
+				in.sliceSet(sv, j, b)
+				in.sliceSet(sv, j-1, a)
+			}
+		}
+		return TupleV{}
+	}
+	m["sort.Slice"] = sortSlice
+	m["sort.SliceStable"] = sortSlice
+}
